@@ -96,12 +96,54 @@ type Rec struct {
 	OnEvent func(e *Event)
 	// Silent disables all synchronisation (C13 mode): nothing is recorded.
 	Silent bool
+	// Scribble makes the observer a consumer that APPENDS to the slices it has been handed (they are its own):
+	// at every later callback - and whenever the harness calls ScribbleAll - a sentinel is written into the
+	// spare capacity (between len and cap) of every slice received so far. An operator that goes on using
+	// the backing array of a slice it has delivered then sees its pending data overwritten.
+	Scribble bool
 	// NoDwellOnTerminal etc. could be added as needed.
 
 	start time.Time
 }
 
-func New(name string) *Rec { return &Rec{Name: name, start: time.Now()} }
+func New(name string) *Rec { return &Rec{Name: name, start: time.Now(), Scribble: DefaultScribble} }
+
+// DefaultScribble is the Scribble setting of recorders made by New (set once by a check's Setup).
+var DefaultScribble bool
+
+// ScribbleAll appends (in place) one sentinel element to every slice delivered so far that has spare capacity.
+func (r *Rec) ScribbleAll() {
+	r.mu.Lock()
+	defer r.mu.Unlock()
+	for i := range r.events {
+		scribble(r.events[i].orig)
+	}
+}
+
+func scribble(orig any) {
+	switch x := orig.(type) {
+	case []int:
+		if cap(x) > len(x) {
+			_ = append(x, -777)
+		}
+	case []int64:
+		if cap(x) > len(x) {
+			_ = append(x, -777)
+		}
+	case []float64:
+		if cap(x) > len(x) {
+			_ = append(x, -777)
+		}
+	case []string:
+		if cap(x) > len(x) {
+			_ = append(x, "scribbled")
+		}
+	case []any:
+		if cap(x) > len(x) {
+			_ = append(x, any("scribbled"))
+		}
+	}
+}
 
 var epoch = time.Now()
 
@@ -151,6 +193,9 @@ func (r *Rec) enter(kind Kind, ctx context.Context, val string, orig any, err er
 		e.ErrS = err.Error()
 	}
 	e.Sub, e.Mid, e.Item, e.Up = mark(ctx, SubKey), mark(ctx, MidKey), mark(ctx, ItemKey), mark(ctx, UpKey)
+	if r.Scribble {
+		r.ScribbleAll()
+	}
 	r.mu.Lock()
 	e.Seq = Tick() // entry order and the grammar check are decided atomically
 	if r.terminal != Next {
